@@ -236,7 +236,7 @@ func (in *inst) Check(res *mcrt.Result) []explore.Violation {
 	}
 	collisions := 0
 	for _, e := range res.Log {
-		if e.Kind == "log" && strings.Contains(e.Arg, "Diode set collision") {
+		if e.Kind == "log" { // any line the ring logs is a collision report (the wording may change)
 			collisions++
 		}
 	}
